@@ -357,6 +357,43 @@ def gen_directed():
 NAMES = ["626f62", "616c696365", "62"]      # bob, alice, b
 
 
+# tuples whose textual renderings collide when a separator is dropped or a field is rendered without a fixed
+# width: decimal S-VLAN/C-VLAN concatenations ("123" = 1|23 = 12|3 = 123|0 minus the 0 ...), with / without leading
+# zeros, hex-vs-decimal look-alikes, and a MAC whose last hex pair looks like the first VLAN digits
+COLLIDE = [
+    [(1, 23), (12, 3)], [(1, 230), (12, 30), (123, 0)], [(10, 0), (1, 0), (100, 0)], [(11, 1), (1, 11), (111, 0)],
+    [(409, 4), (40, 94), (4, 94), (4094, 0)], [(2, 1), (21, 0), (0, 21)], [(16, 10), (10, 16), (1, 610), (161, 0)],
+]
+
+
+def gen_tb_collide(rng, tier):
+    """the same MAC on VLAN pairs whose textual keys could alias: each holds a session; every one addresses every
+    other one's session with PADT and session packets; a replayed PADR of one must not displace the other"""
+    cases = []
+    head = "tb %s 60 G=0-4094 occ=- next=- ; " % SECRET
+    for grp in COLLIDE:
+        for mac in MACS[:1] if tier == "quick" else MACS:
+            ts = [(mac, a, b) for a, b in grp]
+            ops = ["R/%s/%s" % (tup(t), ck_valid(t)) for t in ts]
+            n = len(ts)
+            for i, t in enumerate(ts):
+                for j in range(n):
+                    if i != j:
+                        ops += ["S/%s/%d/%s" % (tup(t), j + 1, k) for k in ("cr", "tr", "er")]
+                        ops.append("T/%s/%d" % (tup(t), j + 1))
+            for i, t in enumerate(ts):
+                ops.append("S/%s/%d/cr" % (tup(t), i + 1))
+            # cookies are bound to the tuple, not to its rendering
+            ops.append("R/%s/%s" % (tup(ts[0]), ck_valid(ts[1])))
+            ops += ["T/%s/%d" % (tup(t), i + 1) for i, t in enumerate(ts)]
+            cases.append(head + " ".join(ops))
+            # victim first, then the colliding tuple opens its own session: the victim's tuple entry must survive
+            ops = ["R/%s/%s" % (tup(ts[0]), ck_valid(ts[0])), "R/%s/%s" % (tup(ts[1]), ck_valid(ts[1])),
+                   "T/%s/2" % tup(ts[1]), "S/%s/1/cr" % tup(ts[0]), "T/%s/1" % tup(ts[0])]
+            cases.append(head + " ".join(ops))
+    return cases
+
+
 def gen_tb_race(rng, tier):
     """PADRs forced to overlap between allocateSessionID and addToIndexes (gate in the harness's AccessResolver)"""
     head = "tb %s 60 G=0-199 " % SECRET
@@ -419,7 +456,7 @@ def gen_cases(rng, tier, budget):
     n = (budget or 700) if tier == "quick" else (budget or 12000)
     for _ in range(n):
         cases.append(gen_tb_one(rng, ttl=rng.choice([60, 60, 60, 5])))
-    cases += gen_directed() + gen_tb_race(rng, tier) + gen_tb_attr(rng, tier)
+    cases += gen_directed() + gen_tb_collide(rng, tier) + gen_tb_race(rng, tier) + gen_tb_attr(rng, tier)
     # quick: one history with 65535 sessions (last id taken -> id space full -> freed -> two PADRs race for it)
     cases += FULLSCALE[1:]
     if tier == "thorough":
